@@ -24,6 +24,7 @@ type Profile struct {
 	PRollout, PExperiment                     float64
 	PMalformed                                float64
 	PDocNoise                                 float64
+	PDateAttr                                 float64 // the context certainly has a "date" attribute
 	PShuffle                                  float64 // key order of every object shuffled (semantics-preserving)
 	PBoundary                                 float64
 	PLongStrings                              float64
@@ -49,13 +50,14 @@ func baseProfile(name string) Profile {
 
 var ctxKeys = []string{"a", "b", "c", "d", "e", "f"}
 var kinds = []string{"user", "org", "dev"}
-var flagKeys = []string{"f0", "f1", "f2", "f3", "f4", "f5"}
-var segKeys = []string{"s0", "s1", "s2", "s3", "s4", "s5"}
+var flagKeys = []string{"f0", "f1", "f2", "f3", "f4", "f%d-50%-off"} // one key that a printf-style logger must not interpret
+var segKeys = []string{"s0", "s1", "s2", "s3", "s4", "s%v"}
 
 var strPool = []string{"alice@x.com", "bob", "a", "b", "", "x.com", "Alice", "ab", "zzz", "user", "org", "日本", "a/b", "~t", "\x00", "a\x00b", "\x7f\x01"}
-var numPool = []float64{0, 1, -1, 42, 42.5, 1e10, 9007199254740992, -9007199254740992, 0.1, 99.99, 3, 1577836800000,
+var numPool = []float64{1577836807123, 0, 1, -1, 42, 42.5, 1e10, 9007199254740992, -9007199254740992, 0.1, 99.99, 3, 1577836800000,
 	253402300799000, -62135596800000, 1e30, math.Copysign(0, -1), 7, 100}
-var datePool = []string{"2020-01-01T00:00:00Z", "2020-01-01T01:00:00+01:00", "2019-12-31T23:59:59.999999999Z",
+var datePool = []string{"2020-01-01T00:00:07.1234Z", "2020-01-01T00:00:07.1238Z", "2020-01-01T00:00:07.123Z", "2020-01-01T00:00:07.123999999Z",
+	"2020-01-01T00:00:00Z", "2020-01-01T01:00:00+01:00", "2019-12-31T23:59:59.999999999Z",
 	"0001-01-01T00:00:00Z", "9999-12-31T23:59:59.999999999Z", "2020-01-01t00:00:00z", "2020-01-01T00:00:00.5-07:30",
 	"2020-13-01T00:00:00Z", "2020-01-01", "2020-01-01T00:00:00", "2020-02-30T00:00:00Z", "2020-1-01T00:00:00Z",
 	"2020-01-01T24:00:00Z", "2020-01-01T00:00:60Z", "not a date", "1970-01-01T00:00:00Z", "2262-04-12T00:00:00Z",
@@ -168,6 +170,10 @@ func (w *World) attrValue(name string) *J {
 	case "ver":
 		return JStr(w.r.Pick(semverPool))
 	case "date":
+		if w.r.P(0.25 + w.p.PDateAttr/2) { // instants within one millisecond of each other, in both spellings
+			return []*J{JStr("2020-01-01T00:00:07.1234Z"), JStr("2020-01-01T00:00:07.1238Z"), JStr("2020-01-01T00:00:07.123Z"),
+				JStr("2020-01-01T00:00:07.123999999Z"), JNum(1577836807123), JStr("2020-01-01T01:00:07.1234+01:00")}[w.r.Intn(6)]
+		}
 		if w.r.P(0.5) {
 			return JStr(w.r.Pick(datePool))
 		}
@@ -199,6 +205,10 @@ func (w *World) genSingle(kind string) SingleSpec {
 	}
 	sp.Anon = w.r.P(0.2)
 	used := map[string]bool{}
+	if w.r.P(w.p.PDateAttr) {
+		used["date"] = true
+		sp.Attrs = append(sp.Attrs, KV{"date", w.attrValue("date")})
+	}
 	for i := 0; i < w.r.Intn(6); i++ {
 		n := w.r.Pick(attrNames)
 		if used[n] {
@@ -329,7 +339,7 @@ func (w *World) genClause(segOK bool) *J {
 		attr = r.Pick([]string{"/nested/a/b", "/nested/x~1y", "/email", "/~1slash~0name", "/kind", "/key", "/nested/a", "/tags/0"})
 	}
 	if r.P(p.PMalformed) {
-		attr = r.Pick([]string{"", "//", "/a~2", "/", "/a//b", "/a~"})
+		attr = r.Pick([]string{"", "//", "/a~2", "/", "/a//b", "/a~", "/a%2Fb//", "/%d~"})
 	}
 	effKind := kind
 	if effKind == "" {
